@@ -216,8 +216,8 @@ theorem evalWOp_eq (c : Cfg) (w : WOp) (s : St) : evalWOp c w s = evalOp c w.toO
   | modify u =>
     simp only [WOp.toOp, evalOp, evalModifyT_eq]; rfl
   | other op =>
-    show (if (c.single && op.needsDataset) = true then none else evalOp c op s) = evalOp c op s
-    cases hb : (c.single && op.needsDataset) with
+    show (if (c.single && op.needsDataset || op.isFail) = true then none else evalOp c op s) = evalOp c op s
+    cases hb : (c.single && op.needsDataset || op.isFail) with
     | false => simp
     | true => simp [evalOp, hb]
 
@@ -315,13 +315,16 @@ theorem asWritten_needsDataset (w : WOp) : w.toOp.needsDataset = w.asWritten.nee
       simp only [Option.map, any_congr_mem _ (sameQuads_translate _)]
   | other op => rfl
 
+theorem asWritten_isFail (w : WOp) : w.toOp.isFail = w.asWritten.isFail := by
+  cases w <;> rfl
+
 /-- (ii): a written operation evaluated through `translateQuads`' structure leaves the same quads and supply
     as the flat model applied to the quads in written order -/
 theorem evalWOp_same_asWritten (c : Cfg) (w : WOp) (s : St) :
     SameOutcome (evalWOp c w s) (evalOp c w.asWritten s) := by
   rw [evalWOp_eq]
   unfold evalOp
-  rw [asWritten_needsDataset]
+  rw [asWritten_needsDataset, asWritten_isFail]
   split
   · trivial
   · cases w with
